@@ -116,13 +116,16 @@ func (x *ifaceRun) legal(op Op, private bool) bool {
 	return true
 }
 
-// firstDivergence runs ops with a comparison after every step and returns (illegal, step of the first
-// disagreement or -1, rank of the first differing getter). Results for short sequences are memoised per
-// worker: the minimiser asks for the same short candidates again and again.
+// diverges runs ops the way the enumeration does - both back-ends are observed once, after the last
+// operation - and reports whether they disagree there (and the rank of the first differing getter).
+// The observation schedule matters: the adapter's getters are not free of side effects (a failed account
+// read is remembered in dbErr and makes the next Finalise fail), so the minimiser must judge candidates
+// exactly like the enumeration judges sequences. Results for short sequences are memoised per worker: the
+// minimiser asks for the same short candidates again and again.
 type memoRes struct {
-	illegal bool
-	step    int16
-	getter  int16
+	illegal  bool
+	diverged bool
+	getter   int16
 }
 
 // memoKey is pointer-free so that the garbage collector does not scan the memo tables.
@@ -136,7 +139,7 @@ func seqKey(ops []Op) (k memoKey) {
 	return
 }
 
-func (w *ifaceWorker) firstDivergence(ops []Op) memoRes {
+func (w *ifaceWorker) diverges(ops []Op) memoRes {
 	memoise := len(ops) <= 5
 	var k memoKey
 	if memoise {
@@ -145,15 +148,10 @@ func (w *ifaceWorker) firstDivergence(ops []Op) memoRes {
 			return m
 		}
 	}
-	// cheap test first: a candidate on which the back-ends agree after the last step counts as agreeing
-	// (a disagreement that heals before the end is not used for minimisation)
 	r := w.exec(ops, false, true)
-	m := memoRes{illegal: r.illegal, step: -1}
+	m := memoRes{illegal: r.illegal}
 	if !r.illegal && r.diffs != nil {
-		if len(ops) > 1 {
-			r = w.exec(ops, true, true)
-		}
-		m.step = int16(r.step)
+		m.diverged = true
 		m.getter = int16(getterRank(r.diffs[0].Getter))
 	}
 	if memoise {
@@ -189,46 +187,46 @@ var canonicalOps = func() []Op {
 }()
 
 // minimise brings a diverging sequence into a canonical small form, as a deterministic function of the
-// input sequence:
-//  1. removal: operations are removed greedily (left to right, to a fixpoint) while the rest is legal and the
-//     back-ends still disagree somewhere; what follows the first disagreement is dropped;
-//  2. replacement: left to right, an operation is replaced by the first operation instance that precedes it in
-//     canonical order (so EndBlock -> NextTx -> Finalise, SetNonce -> AddBalance, ...) for which the sequence
-//     still diverges with the same first differing getter; then back to 1.
+// input sequence. A candidate is accepted if it is legal and diverges (observed after its last operation,
+// see diverges) with the same first differing getter as the sequence that was found, so that one defect is
+// not filed under the signature of another one it happens to contain. Candidates, to a fixpoint:
+//  1. the shortest diverging proper prefix, then the shortest diverging proper suffix;
+//  2. removal of single operations, left to right;
+//  3. replacement, left to right, of an operation by the first operation instance that precedes it in
+//     canonical order (so EndBlock -> NextTx -> Finalise, SetNonce -> AddBalance, ...).
 //
 // RevertToSnapshot positions are kept as they are; a change that makes one dangle is simply illegal.
 func (w *ifaceWorker) minimise(ops []Op) ([]Op, execResult) {
 	cur := append([]Op(nil), ops...)
-	removal := func() {
-		for changed := true; changed; {
-			changed = false
-			for i := 0; i < len(cur); i++ {
-				cand := append(append([]Op(nil), cur[:i]...), cur[i+1:]...)
-				m := w.firstDivergence(cand)
-				if m.illegal || m.step < 0 {
-					continue
-				}
-				cur, changed = cand[:m.step], true
+	base := w.diverges(cur)
+	if base.illegal || !base.diverged {
+		panic(fmt.Sprintf("minimise: %v does not diverge", opStrings(ops)))
+	}
+	ok := func(cand []Op) bool {
+		m := w.diverges(cand)
+		return !m.illegal && m.diverged && m.getter == base.getter
+	}
+	for rounds := 0; rounds < 64; rounds++ {
+		changed := false
+		for k := 1; k < len(cur); k++ {
+			if ok(cur[:k]) {
+				cur, changed = append([]Op(nil), cur[:k]...), true
+				break
+			}
+		}
+		for k := 1; k < len(cur); k++ {
+			if ok(cur[len(cur)-k:]) {
+				cur, changed = append([]Op(nil), cur[len(cur)-k:]...), true
+				break
+			}
+		}
+		for i := 0; i < len(cur); i++ {
+			cand := append(append([]Op(nil), cur[:i]...), cur[i+1:]...)
+			if len(cand) > 0 && ok(cand) {
+				cur, changed = cand, true
 				i--
 			}
 		}
-	}
-	// shortest diverging suffix first (every proper prefix of a reported sequence agrees, so the last
-	// operation is always needed; most minimal forms are a suffix or a subsequence of a short suffix)
-	for k := 1; k < len(cur); k++ {
-		suffix := cur[len(cur)-k:]
-		if m := w.firstDivergence(suffix); !m.illegal && m.step >= 0 {
-			cur = append([]Op(nil), suffix[:m.step]...)
-			break
-		}
-	}
-	removal()
-	for rounds := 0; rounds < 64; rounds++ {
-		base := w.firstDivergence(cur)
-		if base.illegal || base.step < 0 {
-			break // cannot happen: cur diverges
-		}
-		replaced := false
 	positions:
 		for i := range cur {
 			for _, c := range canonicalOps {
@@ -237,20 +235,17 @@ func (w *ifaceWorker) minimise(ops []Op) ([]Op, execResult) {
 				}
 				cand := append([]Op(nil), cur...)
 				cand[i] = c
-				m := w.firstDivergence(cand)
-				if m.illegal || m.step < 0 || m.getter != base.getter {
-					continue
+				if ok(cand) {
+					cur, changed = cand, true
+					break positions
 				}
-				cur, replaced = cand[:m.step], true
-				break positions
 			}
 		}
-		if !replaced {
+		if !changed {
 			break
 		}
-		removal()
 	}
-	return cur, w.exec(cur, true, true)
+	return cur, w.exec(cur, false, true)
 }
 
 // ---------------------------------------------------------------------------------------------
